@@ -230,7 +230,7 @@ def run(ctx):
                             "(output spelling, cwd, idl spelling, report format+location, clean, target list, program feature set); "
                             "non-trivial = at least one generated file and a report")
     tables = sysgen.live_tables(ctx)
-    n = ctx.n(150, 1500)
+    n = ctx.n(120, 1500)
     cases = []
     for c in CORPUS:
         cases.append(make_case(c["seed_key"], ctx.quick, c["forced"]) + (c["seed_key"], c["forced"]))
